@@ -407,16 +407,18 @@ Section WalkFacts.
     induction l as [|c r IH]; intros H; [reflexivity|]. cbn [concat_res flat_map]. rewrite (H c (or_introl eq_refl)). cbn [rbind].
     rewrite IH by (intros x Hx; apply H; right; exact Hx). reflexivity.
   Qed.
-  Lemma btt_spec : forall fuel n, In n (ids t) -> length (a_descendants t n) < fuel ->
-    btt first_raw next_raw is_tag fc fuel ftrue ftrue n = Ok (a_df_btt t n).
+  Lemma btt_spec F root : forall fuel n, In n (ids t) -> length (a_descendants t n) < fuel ->
+    btt first_raw next_raw is_tag fc fuel ftrue F root n = Ok (filter (fun x => N.eqb x root || F x) (a_df_btt t n)).
   Proof.
     induction fuel as [|f IH]; intros n Hn Hf; [lia|]. cbn [btt]. rewrite (children_spec ftrue ftrue n Hn). cbn [rbind].
-    rewrite (filter_all _ _ (fun x => eq_refl)). rewrite (concat_res_pre _ (a_df_btt t)).
-    - cbn [rbind]. rewrite (post_unfold t Hnd n Hn). reflexivity.
+    rewrite (filter_all _ _ (fun x => eq_refl)).
+    rewrite (concat_res_pre _ (fun c => filter (fun x => N.eqb x root || F x) (a_df_btt t c))).
+    - cbn [rbind]. rewrite (post_unfold t Hnd n Hn), filter_app, filter_flat_map. cbn [filter].
+      destruct (N.eqb n root || F n); [reflexivity|rewrite app_nil_r; reflexivity].
     - intros c Hc. apply IH; [exact (children_in t n c Hc)|]. pose proof (child_descendants_shorter t Hnd n c Hn Hc). lia.
   Qed.
-  Theorem traverse_df_btt_spec fuel n : In n (ids t) -> length (ids t) <= fuel ->
-    w_traverse_df_btt first_raw next_raw is_tag fc fuel ftrue ftrue n = Ok (a_df_btt t n).
+  Theorem traverse_df_btt_spec fuel F n : In n (ids t) -> length (ids t) <= fuel ->
+    w_traverse_df_btt first_raw next_raw is_tag fc fuel ftrue F n = Ok (filter (fun x => N.eqb x n || F x) (a_df_btt t n)).
   Proof. intros Hn Hf. apply btt_spec; [exact Hn|]. pose proof (descendants_length n Hn). lia. Qed.
 
   Lemma rbind_ret {A} (x : res A) : (r <- x ;; Ok r) = x.
@@ -501,17 +503,4 @@ Section WalkFacts.
     - apply memb_In. apply -> in_rev. apply memb_In. exact E.
     - apply memb_false. intros Hin. apply in_rev in Hin. apply memb_false in E. contradiction.
   Qed.
-  (* ---------------------------------------------------------------- traverse_df_ltr_btt with passed filters *)
-  Lemma btt_spec_filtered F : forall fuel n, In n (ids t) -> length (a_descendants t n) < fuel ->
-    btt first_raw next_raw is_tag fc fuel ftrue F n = Ok (a_df_btt_pruned t F n).
-  Proof.
-    induction fuel as [|f IH]; intros n Hn Hf; [lia|]. cbn [btt]. rewrite (children_spec ftrue F n Hn). cbn [rbind].
-    rewrite (filter_ext (fand ftrue F) F) by reflexivity. rewrite (concat_res_pre _ (a_df_btt_pruned t F)).
-    - cbn [rbind]. rewrite (pruned_unfold t Hnd F n Hn). reflexivity.
-    - intros c Hc. apply filter_In in Hc. destruct Hc as [Hc _]. apply IH; [exact (children_in t n c Hc)|].
-      pose proof (child_descendants_shorter t Hnd n c Hn Hc). lia.
-  Qed.
-  Theorem traverse_df_btt_filtered_spec fuel F n : In n (ids t) -> length (ids t) <= fuel ->
-    w_traverse_df_btt first_raw next_raw is_tag fc fuel ftrue F n = Ok (a_df_btt_pruned t F n).
-  Proof. intros Hn Hf. apply btt_spec_filtered; [exact Hn|]. pose proof (descendants_length n Hn). lia. Qed.
 End WalkFacts.
